@@ -48,6 +48,11 @@ HOLES = [
     ('note_block', "Table t {\n id int\n Note {\n '''§'''\n }\n}\n", False),
     ('column_note', 'Table t {\n id int [note: "§"]\n}\n', False),
     ('index_name', "Table t {\n id int\n indexes {\n id [name: '§', note: '§']\n `§`\n }\n}\n", False),
+    ('index_name_triple', "Table t {\n id int\n indexes {\n id [name: '''§''', note: '''§''']\n (id, `§`) [name: \"§\"]\n }\n}\n", False),
+    ('default_triple', "Table t {\n id int [default: '''§''', note: '''§''']\n}\n", False),
+    ('enum_note_triple', "Enum e {\n a [note: '''§''']\n}\nTableGroup g [note: '''§'''] {\n}\n", False),
+    ('project_value_triple', "Project p {\n k: '''§'''\n j: \"§\"\n}\n", False),
+    ('comment_backslash', T2 + '// §\\\nRef: t.id > u.id // §\\\nTable v {\n id int // §\\\n x int\n}\n', False),
     ('enum', 'Enum "§" {\n "§" [note: \'§\']\n}\nTable t {\n id "§"\n}\n', False),
     ('enum_schema', 'Enum "§"."§" {\n x\n}\nTable t {\n id "§"."§"\n}\n', False),
     ('project', "Project \"§\" {\n k: '§'\n Note: '''§'''\n}\n", False),
